@@ -520,6 +520,10 @@ def run(R):
         if not oku:
             R.viol("C05.merge.tx", "tx-union", "split transactions are not accumulated as a set union", sp, sp.lines[0])
         R.inst("C05.merge.tx", "K6 flows-to", "split transactions: HashSet union of every version's transactions", len(ext), oku)
+        # ... of *every* version (seed C05-r6: `break` once two distinct transactions were seen — which versions made it depends on map order)
+        GT_ = ["ant_networking::transactions::get_transactions_from_record", "*::get_transactions_from_record"]
+        if CallSink(*GT_, in_closures=False).blocks(sp):
+            R.loop_exhaustive("C05.merge.tx.all", sp, CallSink(*GT_, in_closures=False), "split transactions: every version of the split result is offered to the union (no early exit from the loop)", "the versions of the split result")
 
 
 
